@@ -42,6 +42,32 @@ def owner(fi, t):
     return None
 
 
+
+def _nonempty_polarity(atom_text, buf):
+    """True when the atom holds exactly when `buf` is non-empty, False when exactly when it is empty, None otherwise."""
+    try:
+        t = ast.parse(atom_text, mode="eval").body
+    except SyntaxError:
+        return None
+    if ast.unparse(t) == buf or ast.unparse(t) in (f"len({buf})", f"bool({buf})"):
+        return True
+    if isinstance(t, ast.Compare) and len(t.ops) == 1:
+        l, op, r = t.left, t.ops[0], t.comparators[0]
+        flip = {ast.Lt: ast.Gt, ast.Gt: ast.Lt, ast.LtE: ast.GtE, ast.GtE: ast.LtE}
+        if isinstance(l, ast.Constant) and not isinstance(r, ast.Constant):
+            l, r = r, l
+            op = flip.get(type(op), type(op))()
+        lt = ast.unparse(l)
+        if lt == f"len({buf})" and isinstance(r, ast.Constant) and isinstance(r.value, int) and not isinstance(r.value, bool):
+            n = r.value
+            if (isinstance(op, ast.Gt) and n == 0) or (isinstance(op, ast.GtE) and n == 1):
+                return True
+            if (isinstance(op, ast.Eq) and n == 0) or (isinstance(op, ast.Lt) and n == 1) or (isinstance(op, ast.LtE) and n == 0):
+                return False
+        if lt == buf and isinstance(r, ast.Constant) and r.value in (b"", ) and isinstance(op, ast.Eq):
+            return False
+    return None
+
 def check(ctx):
     repo = ctx.repo
     R = Raises(repo)
@@ -216,7 +242,7 @@ def check(ctx):
     # every byte read from the socket reaches the shared stream in the same read() call: the hand-over from the private
     # buffer may depend on nothing but that buffer being non-empty (no size threshold - the tail of a message can arrive in a
     # segment of any length, and no further socket event will come for bytes that were held back)
-    from ..astutil import guards as _guards
+    from ..astutil import guards as _guards, guard_facts as _gf
     n_tr = 0
     for q, fi in funcs.items():
         if fi.mod.name != "bromelia.transport" or fi.name != "read":
@@ -225,10 +251,9 @@ def check(ctx):
         for x in walk_no_nested(fi.node):
             if isinstance(x, (ast.AugAssign, ast.Assign)) and ast.unparse(x.targets[0] if isinstance(x, ast.Assign) else x.target) == "self._recv_data_stream":
                 n_tr += 1
-                allowed = {("self._recv_buffer", True), ("len(self._recv_buffer) > 0", True), ("len(self._recv_buffer) >= 1", True),
-                           ("len(self._recv_buffer) == 0", False), ("self._recv_buffer == b''", False)}
-                conds = {(ast.unparse(t), v) for t, v in g_.get(id(x), [])}
-                extra = sorted(conds - allowed)
+                facts_, resid_ = _gf(g_.get(id(x), []))
+                extra = sorted([f"{k} is {v}" for k, v in facts_.items() if _nonempty_polarity(k, "self._recv_buffer") is not v]
+                               + [f"{k} is {v}" for k, v in resid_])
                 ctx.decide(not extra, "R-CONSERVE/hand-over-guard", fi.qual, fi.where(x),
                            "received bytes are handed to the shared stream whenever there are any",
                            f"read() hands the received bytes over only under {extra}: bytes that arrive while the condition is false stay in "
